@@ -96,10 +96,31 @@ def drive_dl(geo, bud, cfgs, model, real):
             got = [s.collator([s.dataset[i] for i in b]) for b in s.batch_sampler]
     except Exception as e:
         return f"exception:{type(e).__name__}", repr(e)[:300]
-    got = [(g[0], g[1], [tuple(x) for x in g[2]]) if isinstance(g, tuple) and len(g) == 3 else g for g in got]
+    norm = lambda gs: [(g[0], g[1], [tuple(x) for x in g[2]]) if isinstance(g, tuple) and len(g) == 3 else g for g in gs]
+    got = norm(got)
     if got != exp:
         k = ic.first_diff(exp, got)
         return "batch_mismatch", dict(at=k, model=exp[k:k + 2], impl=got[k:k + 2], n_model=len(exp), n_impl=len(got))
+    # the same object after an iteration that was abandoned part-way (first batch only / inside the first side pass / half-way)
+    side_at = next((i for i, b in enumerate(exp) if b[1] != 0), None)
+    for k in sorted({1, len(exp) // 2} | ({side_at + 1} if side_at is not None else set())):
+        if not 0 < k < len(exp):
+            continue
+        try:
+            it = iter(s.get_data_loader(num_workers=0)) if real else iter(s.batch_sampler)
+            for _ in range(k):
+                next(it)
+            del it
+            if real:
+                again = [b for b in s.get_data_loader(num_workers=0)]
+            else:
+                again = [s.collator([s.dataset[i] for i in b]) for b in s.batch_sampler]
+        except Exception as e:
+            return f"after_abandoned_iteration:exception:{type(e).__name__}", repr(e)[:300]
+        again = norm(again)
+        if again != exp:
+            d = ic.first_diff(exp, again)
+            return "after_abandoned_iteration:batch_mismatch", dict(abandoned_after_batches=k, at=d, model=exp[d:d + 2], impl=again[d:d + 2])
     return None, None
 
 
@@ -184,6 +205,7 @@ def run(run):
                                  single_configs=len(list(ic.config_menu_full())), **b), geometries=len(geos))
     run.assumptions += [
         "states counted as (geometry, budget, stream length) classes; the model's counter states are reported by C04",
+        "dataloader-level drives also re-iterate the same object after an abandoned iteration (after 1 batch, inside the first side pass, half-way)",
         "real get_data_loader(num_workers=0) runs are a sub-lattice; num_workers>=2 is not part of the deciding step",
     ]
 
